@@ -842,6 +842,11 @@ class Interp:
                     return FuncVal(self.proj.funcs[tgt])
                 if tgt in self.proj.classes:
                     return TypeVal(tgt)
+                if "." in tgt:
+                    m_, n_ = tgt.rsplit(".", 1)
+                    if m_ in self.proj.modules and n_ in self.proj.modules[m_].toplevel and m_ != modname:
+                        # a module-level name of another package module (an alias, a constant, an instance)
+                        return self.e_Name(ast.Name(id=n_, ctx=ast.Load(), lineno=getattr(node, "lineno", 0)), {"__module__": m_})
                 return ModVal(tgt)
             q = "%s.%s" % (modname, node.id)
             if q in self.proj.funcs:
@@ -853,13 +858,18 @@ class Interp:
             e = self.folder.env(modname)
             if node.id in e:
                 return _thaw(e[node.id])
+            tl0 = mod.toplevel.get(node.id)
+            if isinstance(tl0, ast.Assign) and isinstance(tl0.value, ast.Name) and tl0.value.id != node.id:
+                # NAME = OtherName (dict_class = Attributes): whatever the other name is
+                return self.e_Name(ast.Name(id=tl0.value.id, ctx=ast.Load(), lineno=getattr(node, "lineno", 0)), {"__module__": modname})
             if node.id in mod.toplevel:
                 # one object per module-level name: identity tests (sentinels) are meaningful
                 key = (modname, node.id)
                 if key not in self._mod_objs:
                     o_ = Opaque(node.id, "obj")
                     tl = mod.toplevel[node.id]
-                    if isinstance(tl, ast.Assign) and isinstance(tl.value, (ast.Dict, ast.Tuple, ast.List, ast.Lambda)):
+                    ext_call = isinstance(tl, ast.Assign) and isinstance(tl.value, ast.Call) and (self.proj.dotted(tl.value.func, mod, None) or "") in self.ext_summaries
+                    if isinstance(tl, ast.Assign) and (isinstance(tl.value, (ast.Dict, ast.Tuple, ast.List, ast.Lambda)) or ext_call):
                         # a module-level table the constant folder cannot represent (it holds lambdas / classes): evaluated here
                         try:
                             n_ev = len(self.trace.events)
@@ -1525,8 +1535,8 @@ class Interp:
             if len(pos) > 1:
                 if isinstance(pos[1], dict):
                     d_.update(pos[1])
-                elif isinstance(pos[1], (list, tuple)):
-                    d_.update(pos[1])
+                elif isinstance(pos[1], (list, tuple, StreamVal, HostIter)):
+                    d_.update([tuple(x) for x in pos[1]])
                 else:
                     return NotImplemented
             d_.update(kw)
@@ -2395,6 +2405,22 @@ class Interp:
                 if q_ in self.summaries:
                     return self.summaries[q_](self, [base] + list(pos), kw, node)
                 return self.call_func(m_, pos, kw, self_obj=base, node=node)
+            if m_ is None and attr == "update" and self._class_method(base.kind, "__setitem__") is not None:
+                # MutableMapping mixin: update(other, **kw) stores key by key through __setitem__
+                setter = self._class_method(base.kind, "__setitem__")
+                pairs = []
+                for src in list(pos) + ([kw] if kw else []):
+                    if isinstance(src, dict):
+                        pairs += list(src.items())
+                    elif isinstance(src, (list, tuple)):
+                        pairs += [tuple(x) for x in src]
+                    elif isinstance(src, Opaque) and isinstance(src.attrs.get("_d"), dict):
+                        pairs += list(src.attrs["_d"].items())
+                    else:
+                        raise Unsupported("mapping update from %r" % (src,))
+                for k_, v_ in pairs:
+                    self.call_func(setter, [k_, v_], {}, self_obj=base, node=node)
+                return None
         if isinstance(base, (Opaque, Sym)):
             if isinstance(base, Opaque) and base.name == "self":
                 func = env.get("__func__")
